@@ -41,7 +41,7 @@ CONSTANTS MinVars, MaxVars,   \* patterns have MinVars..MaxVars variables (MinVa
           WithCommon,  \* BOOLEAN: also the five common resource patterns
           WithWild,    \* BOOLEAN: also the wildcard pattern *
           Perturbs,    \* subset of {"del", "app", "pre", "sub", "ins", "trunc", "junk"}: how foreign strings are derived
-          ValueMode,   \* "all" | "probe" (three fixed assignments per pattern, for the wide pattern sweep)
+          ValueMode,   \* "all" | "probe" / "probe2" (three / two fixed assignments per pattern, for the wide pattern sweep)
           Part,        \* "paths" | "visible"
           VRes,        \* resources placed in the VisibleResources part
           NaiveMax,    \* strings up to this length are also parsed by brute force (enumerator cross-check)
@@ -166,7 +166,7 @@ B(i) == CASE i = 1 -> <<"a">> [] i = 2 -> <<"a", "b">> [] OTHER -> <<"b">>
 ProbeValue(p, j, k) == LET b == B(((k + j) % 3) + 1) IN IF IsMultiVar(p, j) THEN b \o <<"/">> \o b ELSE b
 ValuesFor(p, j, sofar) ==
     IF ValueMode = "all" THEN SeqsUpTo(AllowedChars(p, j), MaxLen)
-    ELSE {ProbeValue(p, j, k) : k \in {k \in 0..2 : \A i \in 1..Len(sofar) : sofar[i] = ProbeValue(p, i, k)}}
+    ELSE {ProbeValue(p, j, k) : k \in {k \in 0..(IF ValueMode = "probe2" THEN 1 ELSE 2) : \A i \in 1..Len(sofar) : sofar[i] = ProbeValue(p, i, k)}}
 
 Perturbations(s) ==
     (IF "del" \in Perturbs THEN {RemoveAt(s, i) : i \in 1..Len(s)} ELSE {})
